@@ -4,21 +4,23 @@
 within three seeds. Writes mutants/RESULTS.md (or seeded/RESULTS.md)."""
 import glob, json, os, re, subprocess, sys, time
 
-V = '/verif'
+V = os.environ.get('NVERIF_V', '/verif')        # a scratch copy of /verif (tools/par_seeded.py), else /verif itself
+REPO = os.environ.get('NVERIF_REPO', '/repo')  # the tree the patches are applied to (the harness copy's path dependency)
+OUT = os.environ.get('NVERIF_MUT_OUT', '/tmp/mut_out')
 
 def sh(cmd, cwd=None, env=None, timeout=3600):
     return subprocess.run(cmd, shell=True, capture_output=True, text=True, cwd=cwd, env=env, timeout=timeout)
 
 def unit_tests():
-    r = sh('cargo test --lib --offline 2>&1 | tail -5', cwd='/repo')
+    r = sh('cargo test --lib --offline 2>&1 | tail -5', cwd=REPO)
     m = re.search(r'test result: (\w+)\. (\d+) passed; (\d+) failed', r.stdout)
     if not m:
         return 'does not compile', r.stdout[-300:]
     return ('pass' if m.group(1) == 'ok' and m.group(2) == '70' else f'{m.group(2)} passed / {m.group(3)} failed'), ''
 
 def run(patch, prop, tier='quick', seeds=(0, 1, 2), also=()):
-    assert sh('git -C /repo diff --quiet').returncode == 0, '/repo dirty'
-    r = sh(f'git -C /repo apply {patch}')
+    assert sh(f'git -C {REPO} diff --quiet').returncode == 0, REPO + ' dirty'
+    r = sh(f'git -C {REPO} apply {patch}')
     if r.returncode != 0:
         return {'status': 'patch does not apply', 'detail': r.stderr[-200:]}
     try:
@@ -31,7 +33,7 @@ def run(patch, prop, tier='quick', seeds=(0, 1, 2), also=()):
         for p in (prop,) + tuple(also):
             for seed in seeds:
                 t0 = time.time()
-                env = dict(os.environ, VERIF_OUT_DIR='/tmp/mut_out', VERIF_SEED=str(seed))
+                env = dict(os.environ, VERIF_OUT_DIR=OUT, VERIF_SEED=str(seed))
                 rr = subprocess.run(['./check', p, tier], cwd=V, env=env, capture_output=True, text=True)
                 dt = time.time() - t0
                 if rr.returncode == 1:
@@ -44,7 +46,7 @@ def run(patch, prop, tier='quick', seeds=(0, 1, 2), also=()):
         res['status'] = 'SURVIVED'
         return res
     finally:
-        sh('git -C /repo checkout -- .')
+        sh(f'git -C {REPO} checkout -- .')
 
 def main():
     args = sys.argv[1:]
@@ -65,11 +67,19 @@ def main():
         items = [(os.path.basename(p)[:-5], p, os.path.basename(p)[:3], ()) for p in sorted(glob.glob(f'{V}/mutants/*.diff'))]
         out = f'{V}/mutants/RESULTS.md'
     for name, patch, prop, also in items:
-        if names and not any(n in name for n in names):
+        if names and not (name in names if '--exact' in args else any(n in name for n in names)):
             continue
         res = run(patch, prop, also=also)
         rows.append((name, prop, res))
         print(name, res.get('status'), res.get('by', ''), res.get('seconds', ''), (res.get('detail') or '')[:120], flush=True)
+    jout = [a.split('=', 1)[1] for a in args if a.startswith('--json=')]
+    if jout:  # a parallel worker: hand the rows to tools/par_seeded.py, which merges them
+        json.dump([[n, p, r] for n, p, r in rows], open(jout[0], 'w'), indent=1)
+        return
+    write_results(out, seeded, names, rows, outside)
+
+
+def write_results(out, seeded, names, rows, outside):
     prev = {}
     if os.path.exists(out) and names:
         for l in open(out):
